@@ -41,8 +41,8 @@ class SocWorld(World):
         "hardware inputs are held quiescent during a transfer (this check decides routing, not "
         "snapshot atomicity)",
         "a Wishbone access that selects no window must stay unacknowledged for ratio+4 cycles "
-        "(every leaf acknowledges within ratio+1); addresses in alignment padding of a window "
-        "are skipped (don't-care for selection, as in C07)",
+        "(every leaf acknowledges within ratio+1); alignment padding of a window is unassigned in "
+        "the map (decode_address() is None) and is checked like any other unassigned address",
         "windows are dense between buses of equal granularity, at implicit addresses or explicit "
         "multiples of the window size (the property's domain)",
     )
@@ -483,8 +483,9 @@ class SocWorld(World):
                 granules = [word * ratio + k for k in range(ratio) if (sel >> k) & 1] \
                     if is_wb else [word]
                 if any(a in pad for a in range(word * ratio, word * ratio + ratio)):
-                    stats.probe("word_in_alignment_padding_skipped")
-                    return
+                    # the map leaves alignment padding unassigned (decode_address() is None), so
+                    # by C01 it must behave like any other unassigned address
+                    stats.probe("word_in_alignment_padding_checked")
                 if is_wb:
                     if sel == 0:
                         stats.fault("zero_select")
